@@ -304,7 +304,7 @@ fn spawn_one(kind: &str, seed: u64, round: u64, sched: &str) -> Option<Value> {
     serde_json::from_slice(&bytes).ok()
 }
 
-const GUARD_S: u64 = 120;
+const GUARD_S: u64 = 60;
 
 fn check(kind: &str, seed: u64, rounds: u64, schedules: u64) -> i32 {
     let mut executions = 0u64;
@@ -315,6 +315,10 @@ fn check(kind: &str, seed: u64, rounds: u64, schedules: u64) -> i32 {
     let mut scenarios: BTreeMap<String, u64> = BTreeMap::new();
     let nworkers = std::thread::available_parallelism().map(|n| n.get()).unwrap_or(8) as u64;
     for round in 0..rounds {
+        // code under test that keeps running into the guard makes the tier inconclusive, not endless
+        if guarded >= 3 {
+            break;
+        }
         let reference = match spawn_one(kind, seed, round, "ref") {
             Some(r) if r["crashed"].is_null() && r["error"].is_null() && r["timeout"].is_null() => r,
             Some(r) if !r["timeout"].is_null() => {
